@@ -198,7 +198,8 @@ theorem batch_flags_eq (c : Cfg) (dec : FlapDecide) :
     obtain ⟨tmax, pts⟩ := b
     cases pts with
     | nil =>
-      have : (batchStep c (ringFlap 2 dec) s { tmax := tmax, pts := [] }).1 = s := rfl
+      have : (batchStep c (ringFlap 2 dec) s { tmax := tmax, pts := [] }).1 = s := by
+        simp [batchStep, show Gen.batchEmptyReturns = true from rfl]
       simp only [batchFlags, specBatchFlags, this, List.isEmpty_nil, if_true]
       rw [ih _ _ h, h.flap]
     | cons p1 rest =>
